@@ -178,6 +178,15 @@ def run(ctx):
             if fr(Hm.real) != rT(are) or fr(Hm.imag) != [[-v for v in r] for r in rT(aim)]: viol('C02:adjoint:herm', 'Adj(A^H) != Adj(A)^H', A)
             if sum(v * v for r in are for v in r) + sum(v * v for r in aim for v in r) != 2 * f2: viol('C02:adjoint:frob', '||Adj(A)||_F^2 != 2 ||A||_F^2', A)
             adj_terms.append(f'({n}%nat, ({", ".join(cm.zmat_lit(c) for c in qx.comps(A))}), {z(are)}, {z(aim)})')
+            # every value of the axis option that the routine ACCEPTS must give a multiplicative, *-preserving embedding (the pinned tree
+            # rejects everything but 'x': NotImplementedError / ValueError = no claim)
+            for ax in ('y', 'z', 'w', 'X'):
+                try: Ma = utils.quaternion_to_complex_adjoint(An, axis=ax); Mb = utils.quaternion_to_complex_adjoint(qx.to_np(B), axis=ax); Mab = utils.quaternion_to_complex_adjoint(qx.to_np(qx.mm(A, B)), axis=ax)
+                except (NotImplementedError, ValueError): continue
+                Pa = Ma @ Mb
+                if fr(Pa.real) != fr(Mab.real) or fr(Pa.imag) != fr(Mab.imag): viol(f'C02:adjoint:axis={ax}:multiplicative', f'the complex adjoint accepts axis={ax!r} but Adj(A) Adj(B) != Adj(AB)', A)
+                Mh = utils.quaternion_to_complex_adjoint(qx.to_np(qx.herm(A)), axis=ax)
+                if fr(Mh.real) != rT(fr(Ma.real)) or fr(Mh.imag) != [[-v for v in r] for r in rT(fr(Ma.imag))]: viol(f'C02:adjoint:axis={ax}:herm', f'the complex adjoint accepts axis={ax!r} but Adj(A^H) != Adj(A)^H', A)
     for cls, A in gen_inputs(ctx):
         try: one(cls, A)
         except Exception as e: viol('C02:raises:' + type(e).__name__, f'an embedding, its inverse or a law check raised {e!r} on a {len(A)}x{len(A[0])} integer matrix', A)
